@@ -745,12 +745,26 @@ class Anchors:
         supply = pick("bda.supply", bda, "_distribute_supply_power", lambda: sided(True))
 
         def core_callees(with_float: bool) -> list[FuncInfo]:
+            """Callees of the core routine that take the `_Power` cells: the top-up also takes the remainder
+            -- a float parameter that it keeps as a complement ledger (decremented as cells grow) --, the
+            per-inverter split takes no float."""
             if core is None:
                 return []
             names = set(self_calls(core.node))
-            return [m for m in bda.methods.values() if m.name in names and m is not core
-                    and _ann_params(m, lambda t: "_Power" in t)
-                    and bool(_ann_params(m, lambda t: t == "float")) == with_float]
+            cands = [m for m in bda.methods.values() if m.name in names and m is not core
+                     and _ann_params(m, lambda t: "_Power" in t)
+                     and bool(_ann_params(m, lambda t: t == "float")) == with_float]
+            if with_float:
+                from .c01 import Ledgers
+
+                def keeps_complement(m: FuncInfo) -> bool:
+                    try:
+                        return bool(set(_ann_params(m, lambda t: t == "float")) & Ledgers(m).complements)
+                    except AnalysisError:
+                        return False
+
+                cands = [m for m in cands if keeps_complement(m)]
+            return cands
 
         pick("bda.greedy", bda, "_greedy_distribute_remaining_power", lambda: core_callees(True))
         pick("bda.split", bda, "_distribute_multi_inverter_pairs", lambda: core_callees(False))
